@@ -177,7 +177,58 @@ def dataset_matches(result, defn, raws, raw_mode, nul_cells=False):
 
 NATIVE_ENV.update(dataset_matches=dataset_matches)
 
+FITS_INT = ' or '.join(
+    f"(result == '{'u' if u else ''}int{w}' and data_encoding.size_in_bits <= {w} and "
+    f"{'' if u else 'not '}(data_encoding.encoding == 'unsigned'))"
+    for u in (True, False) for w in (8, 16, 32, 64))
+
+
+def _gen_dtype(rng, tier, variant):
+    """every encoding class; integer widths 1..64 x {unsigned, signed, twosComplement}; float sizes 16/32/64"""
+    for w in range(1, 65):
+        for e in ('unsigned', 'signed', 'twosComplement'):
+            yield {'k': 'int', 'w': w, 'e': e}
+    for w in (16, 32, 64):
+        yield {'k': 'float', 'w': w}
+    yield {'k': 'bin'}
+    yield {'k': 'str'}
+
+
+def _build_dtype(r):
+    def make():
+        from space_packet_parser.xtce import encodings as e
+        if r['k'] == 'int':
+            return {'data_encoding': e.IntegerDataEncoding(r['w'], r['e'])}
+        if r['k'] == 'float':
+            return {'data_encoding': e.FloatDataEncoding(r['w'])}
+        if r['k'] == 'bin':
+            return {'data_encoding': e.BinaryDataEncoding(fixed_size_in_bits=8)}
+        return {'data_encoding': e.StringDataEncoding(fixed_raw_length=8)}
+    return {'make': make}
+
+
 CONTRACTS = [
+    Contract(
+        target='xarr._min_dtype_for_encoding',
+        props=['C18'],
+        params={'data_encoding': ('rec', ['IntegerDataEncoding', 'FloatDataEncoding', 'BinaryDataEncoding',
+                                          'StringDataEncoding'])},
+        returns='str',
+        # numpy has no integer type wider than 64 bits (E8)
+        requires=["not cls_is(data_encoding, 'IntegerDataEncoding') or "
+                  "(1 <= data_encoding.size_in_bits and data_encoding.size_in_bits <= 64)"],
+        ensures={
+            # the chosen dtype can represent every raw value of the encoding (E8: uintK = [0,2^K), intK two's complement,
+            # float32 holds binary16/32, float64 holds all three)
+            'int_fits': f"implies(cls_is(data_encoding, 'IntegerDataEncoding'), {FITS_INT})",
+            'float_fits': ("implies(cls_is(data_encoding, 'FloatDataEncoding'), result == 'float64' or "
+                           "(result == 'float32' and data_encoding.size_in_bits <= 32))"),
+            'bytes': ("implies(cls_is(data_encoding, 'BinaryDataEncoding') or cls_is(data_encoding, 'StringDataEncoding'), "
+                      "result == 'bytes')"),
+        },
+        modifies=[],
+        native={'gen': _gen_dtype, 'build': _build_dtype},
+    ),
     Contract(
         target='xarr.create_dataset',
         props=['C18'],
